@@ -354,4 +354,84 @@ theorem ioReader_bytes' (d : Nat) (r : Rd) (seekable : Bool) (hr : WFAt d (den r
     · exact Or.inr h3
   · intro hlt; apply h4; omega
 
+/-! ### IOBitWriter -/
+
+/-- invariant of bitio.IOBitWriter: bytes written so far ++ buffered bits = all bits written; < 8 bits buffered -/
+def WInv (w : BitWriter) (all : Bits) : Prop :=
+  w.b.WF ∧ bytesToBits w.out ++ w.b.content = all ∧ w.b.content.length < 8
+
+theorem bitWriter_writeBits_spec (w : BitWriter) (all : Bits) (p : List UInt8) (n : Nat) (h : WInv w all)
+    (hn : n ≤ 8 * p.length) :
+    ∃ w', w.writeBits p n = ok w' ∧ WInv w' (all ++ slice (bytesToBits p) 0 n) := by
+  obtain ⟨hwf, hall, h8⟩ := h
+  unfold BitWriter.writeBits
+  obtain ⟨b1, e1, wf1, c1, _⟩ := buffer_writeBits_spec w.b p n hwf hn
+  rw [e1]
+  simp only [ok_bind]
+  have hlen := buffer_len b1 wf1
+  by_cases hl : b1.content.length < 8
+  · simp only [hlen, hl, if_true, pure_eq]
+    exact ⟨_, rfl, wf1, by rw [c1, ← List.append_assoc, hall], hl⟩
+  · simp only [hlen, hl, if_false]
+    have hne : b1.bitsOff < b1.bufBits := by
+      have := content_length b1 wf1; omega
+    obtain ⟨b2, p2, e2, wf2, c2, pl, pb⟩ := buffer_readBits_spec b1 (b1.content.length - b1.content.length % 8) wf1 hne
+    rw [Nat.min_eq_left (by omega)] at e2 c2 pl pb
+    rw [e2]
+    simp only [ok_bind, pure_eq]
+    have hpad : padTo8 (b1.content.length - b1.content.length % 8) = 0 := by unfold padTo8; omega
+    have hplen : p2.length = (b1.content.length - b1.content.length % 8) / 8 := by
+      rw [pl]; unfold bitsByteCount; split <;> omega
+    refine ⟨_, rfl, wf2, ?_, ?_⟩
+    · simp only
+      rw [List.take_of_length_le (by omega), bytesToBits_append, pb, hpad, List.replicate_zero, List.append_nil, c2,
+        List.append_assoc, List.take_append_drop, c1, ← List.append_assoc, hall]
+    · simp only; rw [c2, List.length_drop]; omega
+
+theorem bitWriter_flush_spec (w : BitWriter) (all : Bits) (h : WInv w all) :
+    ∃ w', w.flush = ok w' ∧ w'.out = packR all := by
+  obtain ⟨hwf, hall, h8⟩ := h
+  unfold BitWriter.flush
+  have hlen := buffer_len w.b hwf
+  have hal : all.length = 8 * w.out.length + w.b.content.length := by
+    rw [← hall, List.length_append, bytesToBits_length]
+  by_cases h0 : w.b.content.length = 0
+  · simp only [hlen, h0, if_true]
+    refine ⟨w, rfl, eq_packR _ _ ?_⟩
+    have hnil : w.b.content = [] := List.eq_nil_of_length_eq_zero h0
+    rw [hnil, List.append_nil] at hall
+    have : padTo8 all.length = 0 := by unfold padTo8; omega
+    rw [this, List.replicate_zero, List.append_nil, hall]
+  · simp only [hlen, h0, if_false]
+    have hne : w.b.bitsOff < w.b.bufBits := by
+      have := content_length w.b hwf; omega
+    obtain ⟨b2, p2, e2, wf2, c2, pl, pb⟩ := buffer_readBits_spec w.b w.b.content.length hwf hne
+    rw [Nat.min_self] at e2 c2 pl pb
+    rw [e2]
+    simp only [ok_bind, pure_eq, Option.isSome_none, Bool.false_eq_true, if_false]
+    have hplen : p2.length = 1 := by rw [pl]; unfold bitsByteCount; split <;> omega
+    refine ⟨_, rfl, eq_packR _ _ ?_⟩
+    simp only
+    have ht : (p2 ++ [0]).take 1 = p2 := by
+      rw [List.take_append_of_le_length (by omega), List.take_of_length_le (by omega)]
+    rw [ht, bytesToBits_append, pb, List.take_of_length_le (Nat.le_refl _), ← List.append_assoc, hall]
+    congr 2
+    unfold padTo8; rw [hal]; congr 2; omega
+
+/-- the bits of a sequence of WriteBits chunks -/
+def chunkBits (chunks : List (Nat × List UInt8)) : Bits := chunks.flatMap (fun c => slice (bytesToBits c.2) 0 c.1)
+
+theorem bitWriter_chunks (chunks : List (Nat × List UInt8)) : ∀ (w : BitWriter) (all : Bits), WInv w all →
+    (∀ c ∈ chunks, c.1 ≤ 8 * c.2.length) →
+    ∃ w', chunks.foldlM (fun w c => w.writeBits c.2 c.1) w = ok w' ∧ WInv w' (all ++ chunkBits chunks) := by
+  induction chunks with
+  | nil => intro w all h _; exact ⟨w, rfl, by simpa [chunkBits] using h⟩
+  | cons c cs ih =>
+    intro w all h hc
+    obtain ⟨w1, e1, h1⟩ := bitWriter_writeBits_spec w all c.2 c.1 h (hc c (by simp))
+    obtain ⟨w2, e2, h2⟩ := ih w1 _ h1 (fun x hx => hc x (by simp [hx]))
+    refine ⟨w2, ?_, ?_⟩
+    · rw [List.foldlM_cons, e1]; exact e2
+    · simpa [chunkBits, List.append_assoc] using h2
+
 end Proofs.C01
